@@ -93,7 +93,8 @@ type World struct {
 	// write counting / crash injection (per incarnation)
 	writes     int
 	crashAt    int
-	crashCh    chan struct{}
+	crashSig   map[int]chan struct{} // per incarnation: closed when that incarnation dies
+	crashCount int // process deaths so far (set before the generation switch)
 	failWrite  int
 	totalWrite int
 
@@ -133,7 +134,7 @@ func NewWorld(spec *RunSpec) *World {
 		paths:       map[[16]byte]string{},
 		Faults:      map[string]int{},
 		Probes:      map[string]int{},
-		crashCh:     make(chan struct{}, 1),
+		crashSig:    map[int]chan struct{}{},
 		finalCh:     map[int]chan struct{}{},
 		primaryDone: make(chan struct{}),
 	}
@@ -419,6 +420,26 @@ func (w *World) ReplyDelay() time.Duration {
 	}
 	w.Faults["slow-read-reply"]++
 	return Pick(r, []time.Duration{time.Second, 10 * time.Second, 100 * time.Second, 1000 * time.Second}) + 273*time.Millisecond
+}
+
+// CrashSig returns the channel that is closed when incarnation gen dies (one channel
+// per incarnation: nothing stale can leak into the next one).
+func (w *World) CrashSig(gen int) chan struct{} {
+	w.mu.Lock()
+	defer w.mu.Unlock()
+	ch := w.crashSig[gen]
+	if ch == nil {
+		ch = make(chan struct{})
+		w.crashSig[gen] = ch
+	}
+	return ch
+}
+
+// CrashCount returns the number of process deaths injected so far.
+func (w *World) CrashCount() int {
+	w.mu.Lock()
+	defer w.mu.Unlock()
+	return w.crashCount
 }
 
 // FinalCh returns the channel that is closed when the engine is about to store a
